@@ -1,17 +1,22 @@
 #!/bin/bash
-# Run once after a fresh restore (offline): warm the Go build cache by building every harness binary.
+# Run once after a fresh restore (offline): conformance of the crypto stand-in, then warm the Go build cache by
+# building the harness binary of every check claimed in MANIFEST.json (other harness directories: best effort).
 set -u
 VERIF="$(cd "$(dirname "$0")" && pwd)"
 export GOFLAGS=-mod=mod GOPROXY=off GOSUMDB=off GOTOOLCHAIN=local CGO_ENABLED=1
 mkdir -p "$VERIF/.build/bin" "$VERIF/evidence" "$VERIF/replays"
 python3 "$VERIF/tools/mkoverlay.py" >/dev/null || exit 1
 cp /repo/go.sum "$VERIF/harness/go.sum"
+rm -f "$VERIF/.build/xcrypto-conformance.FAILED"
 "$VERIF/xcrypto_model/conformance.sh" > "$VERIF/.build/xcrypto-conformance.log" 2>&1 || { echo "setup: xcrypto stand-in conformance FAILED (see .build/xcrypto-conformance.log)" >&2; touch "$VERIF/.build/xcrypto-conformance.FAILED"; }
 cd "$VERIF/harness" || exit 1
+CLAIMED=$(python3 -c "import json;print(' '.join(c['property_id'].lower() for c in json.load(open('$VERIF/MANIFEST.json'))['checks']))")
 rc=0
 for d in cmd/*/; do
   id=$(basename "$d")
   [ -x "$d/prebuild.sh" ] && "$d/prebuild.sh"
-  go build -tags verif -overlay "$VERIF/.build/overlay.json" -o "$VERIF/.build/bin/$id" "./cmd/$id" || { echo "setup: build of $id failed" >&2; rc=1; }
+  if go build -tags verif -overlay "$VERIF/.build/overlay.json" -o "$VERIF/.build/bin/$id" "./cmd/$id" 2> "$VERIF/.build/$id.setup.log"; then :; else
+    case " $CLAIMED " in *" $id "*) echo "setup: build of claimed check $id failed" >&2; cat "$VERIF/.build/$id.setup.log" >&2; rc=1;; *) echo "setup: (unclaimed) $id does not build yet";; esac
+  fi
 done
 exit $rc
